@@ -85,6 +85,9 @@ def _serialize(pid: str) -> None:
     d.mkdir(parents=True, exist_ok=True)
     _LOCK = open(d / f"{pid}.lock", "w")
     fcntl.flock(_LOCK, fcntl.LOCK_EX)
+    import atexit
+
+    atexit.register(_LOCK.close)
 
 
 def setup_repo_path() -> str:
